@@ -105,6 +105,13 @@ func (this *BinaryEntropyEncoder) EncodeBit(bit byte, pred int) {
 func (this *BinaryEntropyEncoder) Write(block []byte) (int, error) {
 	count := len(block)
 
+	if count == 0 {
+		// Nothing is encoded for an empty block: no pending bits to flush in Dispose
+		// (the decoder does not read anything for an empty block either)
+		this.disposed = true
+		return 0, nil
+	}
+
 	if count > _BINARY_ENTROPY_MAX_BLOCK {
 		return -1, errors.New("Binary entropy codec: Invalid block size parameter (max is 1<<30)")
 	}
